@@ -411,7 +411,7 @@ SUBCHECKS = [
     Sub('identity', gen_identity, ev_identity, chunk=1, floor=100, guard=True, envs=1),
     Sub('wrappers', gen_wrap, ev_wrap, chunk=1, floor=200, guard=True, envs=1),
     Sub('covariance', gen_cov, ev_cov, chunk=1, floor=50, guard=True, envs=1),
-    Sub('threads', _tg, _te, chunk=1, floor=3, poison=False, fresh=True),
+    Sub('threads', _tg, _te, chunk=1, floor=3, poison=False, fresh=True, timeout=3600),
 ]
 
 
